@@ -164,3 +164,27 @@ def check(ctx, rep):
     rep.count("handlers around user code", nh, 8)
     # ThrottleExecutor.__init__ evaluates the count callable unprotected: reasoned exception
     rep.exception("R-MUSTCATCH", "ThrottleExecutor.__init__: self._throttle()", "first evaluation of the count callable happens in the constructor, before any worker thread exists; its exception reaches the code constructing the executor")
+
+    # a raising done-callback is logged and affects nothing else: the dispatcher contains each callback separately
+    # (shared with C02)
+    from .c02 import dispatch_rule
+    dispatch_rule(ctx, rep)
+    # the library's own bookkeeping callback (registered by track_future on every future handed out) must not raise
+    # either: exception() / result() on a future raise CancelledError when it was cancelled, so they may only be
+    # asked once cancelled() was found false -- the callback runs inline in add_done_callback on an already-done
+    # future, so the error would come out of submit() / f_map() itself
+    tfm = prog.fn("metrics:track_future").module
+    nq = 0
+    for fi in sorted([f for f in prog.functions.values() if f.module is tfm and f.parent is None], key=lambda f: f.key):
+        ps0, it0 = ctx.paths(fi, None, depth=0)
+        for p in ps0:
+            for e in p.calls():
+                r = q.recv(e)
+                if e.fn is fi and q.call_name(e) in ("exception", "result") and isinstance(r, tuple) and r[0] == "param":
+                    nq += 1
+                    safe = any(t == ("call", ("attr", r, "cancelled"), (), (), None) and v is False and b.seq < e.seq for t, v, b in q.atoms(p)) or any(isinstance(t, tuple) and t[0] == "call" and t[1] == ("attr", r, "cancelled") and v is False and b.seq < e.seq for t, v, b in q.atoms(p))
+                    rep.ob("R-MUSTCATCH", "%s asks %s() only of a future found not cancelled" % (fi.qualname, q.call_name(e)), safe, "%s.%s() is called on a path where cancelled() was not found false first: on a cancelled future it raises CancelledError out of the bookkeeping callback, which add_done_callback runs inline for an already-done future" % (fmt(r), q.call_name(e)), where_of(fi, e.node), trace_of(p, e.seq))
+    rep.count("outcome queries in the metrics callbacks", nq, 1)
+    # the poll worker counts its calls and errors inside the code that handles a raising poll function (shared with C20)
+    from .c20 import labelnames_rule
+    labelnames_rule(ctx, rep, "R-MUSTCATCH", ("POLL_ERROR", "POLL_TOTAL", "POLL_TIME"))
